@@ -709,7 +709,12 @@ impl ExecutionState {
     /// its execution.
     pub fn maybe_yield() -> bool {
         Self::with(|state| {
-            if std::thread::panicking() && !state.in_cleanup {
+            // The execution is over and its tasks are being torn down; there is nothing to schedule.
+            if state.in_cleanup {
+                return false;
+            }
+
+            if std::thread::panicking() {
                 return true;
             }
 
